@@ -4,9 +4,19 @@
 (* call (storage/table/manager.go createTable, incAndGetIDSeq,                *)
 (* setTableVersion, DeleteTable, getTables), for 2 managers racing.           *)
 (* Store records carry versions; Set/Delete follow the MetaKV accept rule.    *)
+(* REPLICA LAG: every read of the manager is a local (stale) read of its      *)
+(* node's metadata replica.  view[m] is what that replica has applied; it     *)
+(* catches up by itself (Catchup) and is current after each of the manager's  *)
+(* own writes (a proposal returns once applied locally).  Lag = TRUE enables  *)
+(* views that stay behind.                                                    *)
+(* Mode = "asis": the pinned commit - a version mismatch on the id sequence   *)
+(* ends CreateTable with an error, also when the sequence was merely read     *)
+(* from a lagging replica (reproduced on a real three-node cluster by vdrive  *)
+(* cataloglag).  Mode = "fixed": incAndGetIDSeq retries from the current pair *)
+(* the store reports.                                                         *)
 EXTENDS Integers, Sequences, FiniteSets, TLC, Json
 
-CONSTANTS Mgrs, Names, MaxCalls, Record, Sample
+CONSTANTS Mgrs, Names, MaxCalls, Record, Sample, Mode, Lag, Sequential
 
 IdStart == 10000
 NoRec == [id |-> 0, ver |-> 0]
@@ -21,8 +31,10 @@ VARIABLES prog,     \* manager -> sequence of [op, name]
           ret,      \* per manager: results
           assigned, \* GHOST: ids assigned so far, in assignment order
           live,     \* GHOST: names created and not deleted (by acknowledged calls), for the list oracle
+          view,     \* per manager: the metadata replica of its node [seq, tabs]
+          free,     \* GHOST per manager: was the name of the current call free when the call began
           hist
-vars == <<prog, seq, tabs, idx, pc, st, rd, got, ret, assigned, live, hist>>
+vars == <<prog, seq, tabs, idx, pc, st, rd, got, ret, assigned, live, view, free, hist>>
 
 Ops == [op : {"C", "D"}, name : Names] \cup {[op |-> "L", name |-> ""]}
 Progs == UNION {[1..n -> Ops] : n \in 0..MaxCalls}
@@ -36,6 +48,8 @@ Init == /\ prog \in [Mgrs -> Progs]
         /\ got = [m \in Mgrs |-> 0]
         /\ ret = [m \in Mgrs |-> <<>>]
         /\ assigned = <<>> /\ live = {} /\ hist = <<>>
+        /\ view = [m \in Mgrs |-> [seq |-> [num |-> 0, ver |-> 0], tabs |-> [n \in {} |-> NoRec]]]
+        /\ free = [m \in Mgrs |-> TRUE]
 
 Cur(m) == prog[m][pc[m] + 1]
 Active(m) == pc[m] < Len(prog[m])
@@ -45,25 +59,41 @@ Finish(m, r) == /\ pc' = [pc EXCEPT ![m] = @ + 1]
                 /\ ret' = [ret EXCEPT ![m] = Append(@, r)]
 Goto(m, s) == st' = [st EXCEPT ![m] = s] /\ UNCHANGED <<pc, ret>>
 Exists(n) == n \in DOMAIN tabs
+\* what manager m's local replica shows; own writes bring it up to date (Sync), otherwise it follows by itself
+VSeq(m) == IF Lag THEN view[m].seq ELSE seq
+VTabs(m) == IF Lag THEN view[m].tabs ELSE tabs
+VExists(m, n) == n \in DOMAIN VTabs(m)
+Sync(m) == view' = [view EXCEPT ![m] = [seq |-> seq', tabs |-> tabs']]
+Catchup(m) == /\ Lag /\ view[m] # [seq |-> seq, tabs |-> tabs]
+              /\ view' = [view EXCEPT ![m] = [seq |-> seq, tabs |-> tabs]]
+              /\ UNCHANGED <<prog, seq, tabs, idx, pc, st, rd, got, ret, assigned, live, free, hist>>
+\* Sequential = TRUE: calls never overlap (a call begins only while no other manager is inside one)
+MayBegin(m) == ~Sequential \/ \A o \in Mgrs \ {m} : st[o] = 0
 
 \* ---- CreateTable: Exists; Get seq; Set seq (CAS); Set table record with version 0
-C1(m) == /\ Active(m) /\ Cur(m).op = "C" /\ st[m] = 0 /\ Log(m)
-         /\ IF Exists(Cur(m).name) THEN Finish(m, [r |-> "exists", id |-> 0]) ELSE Goto(m, 1)
-         /\ UNCHANGED <<prog, seq, tabs, idx, rd, got, assigned, live>>
+C1(m) == /\ Active(m) /\ Cur(m).op = "C" /\ st[m] = 0 /\ MayBegin(m) /\ Log(m)
+         /\ free' = [free EXCEPT ![m] = ~Exists(Cur(m).name)]
+         /\ IF VExists(m, Cur(m).name) THEN Finish(m, [r |-> "exists", id |-> 0]) ELSE Goto(m, 1)
+         /\ UNCHANGED <<prog, seq, tabs, idx, rd, got, assigned, live, view>>
 C2(m) == /\ Active(m) /\ Cur(m).op = "C" /\ st[m] = 1 /\ Log(m)
-         /\ rd' = [rd EXCEPT ![m] = [a |-> IF seq.ver = 0 THEN IdStart ELSE seq.num, ver |-> seq.ver]]
+         /\ rd' = [rd EXCEPT ![m] = [a |-> IF VSeq(m).ver = 0 THEN IdStart ELSE VSeq(m).num, ver |-> VSeq(m).ver]]
          /\ Goto(m, 2)
-         /\ UNCHANGED <<prog, seq, tabs, idx, got, assigned, live>>
+         /\ UNCHANGED <<prog, seq, tabs, idx, got, assigned, live, view, free>>
 C3(m) == /\ Active(m) /\ Cur(m).op = "C" /\ st[m] = 2 /\ Log(m)
          /\ idx' = idx + 1
          /\ IF seq.ver = 0 \/ seq.ver = rd[m].ver
             THEN /\ seq' = [num |-> rd[m].a + 1, ver |-> idx + 1]
                  /\ got' = [got EXCEPT ![m] = rd[m].a + 1]
                  /\ assigned' = Append(assigned, rd[m].a + 1)
-                 /\ Goto(m, 3)
+                 /\ Goto(m, 3) /\ UNCHANGED rd
+            ELSE IF Mode = "fixed"
+            THEN \* the mismatch reports the current pair: retry with it
+                 /\ rd' = [rd EXCEPT ![m] = [a |-> seq.num, ver |-> seq.ver]]
+                 /\ Goto(m, 2) /\ UNCHANGED <<seq, got, assigned>>
             ELSE /\ Finish(m, [r |-> "mismatch", id |-> 0])     \* raw version mismatch from the id sequence
-                 /\ UNCHANGED <<seq, got, assigned>>
-         /\ UNCHANGED <<prog, tabs, rd, live>>
+                 /\ UNCHANGED <<seq, got, assigned, rd>>
+         /\ tabs' = tabs /\ Sync(m)
+         /\ UNCHANGED <<prog, live, free>>
 C4(m) == /\ Active(m) /\ Cur(m).op = "C" /\ st[m] = 3 /\ Log(m)
          /\ idx' = idx + 1
          /\ IF ~Exists(Cur(m).name)        \* version 0 is only accepted for an absent record
@@ -72,13 +102,14 @@ C4(m) == /\ Active(m) /\ Cur(m).op = "C" /\ st[m] = 3 /\ Log(m)
                  /\ live' = live \cup {Cur(m).name}
                  /\ Finish(m, [r |-> "ok", id |-> got[m]])
             ELSE /\ Finish(m, [r |-> "exists", id |-> 0]) /\ UNCHANGED <<tabs, live>>
-         /\ UNCHANGED <<prog, seq, rd, got, assigned>>
+         /\ seq' = seq /\ Sync(m)
+         /\ UNCHANGED <<prog, rd, got, assigned, free>>
 
 \* ---- DeleteTable: Get; Delete (CAS)
-D1(m) == /\ Active(m) /\ Cur(m).op = "D" /\ st[m] = 0 /\ Log(m)
-         /\ IF ~Exists(Cur(m).name) THEN Finish(m, [r |-> "notfound", id |-> 0]) /\ UNCHANGED rd
-            ELSE rd' = [rd EXCEPT ![m] = [a |-> tabs[Cur(m).name].id, ver |-> tabs[Cur(m).name].ver]] /\ Goto(m, 1)
-         /\ UNCHANGED <<prog, seq, tabs, idx, got, assigned, live>>
+D1(m) == /\ Active(m) /\ Cur(m).op = "D" /\ st[m] = 0 /\ MayBegin(m) /\ Log(m)
+         /\ IF ~VExists(m, Cur(m).name) THEN Finish(m, [r |-> "notfound", id |-> 0]) /\ UNCHANGED rd
+            ELSE rd' = [rd EXCEPT ![m] = [a |-> VTabs(m)[Cur(m).name].id, ver |-> VTabs(m)[Cur(m).name].ver]] /\ Goto(m, 1)
+         /\ UNCHANGED <<prog, seq, tabs, idx, got, assigned, live, view, free>>
 D2(m) == /\ Active(m) /\ Cur(m).op = "D" /\ st[m] = 1 /\ Log(m)
          /\ idx' = idx + 1
          /\ IF ~Exists(Cur(m).name) \/ tabs[Cur(m).name].ver = rd[m].ver
@@ -86,14 +117,15 @@ D2(m) == /\ Active(m) /\ Cur(m).op = "D" /\ st[m] = 1 /\ Log(m)
                  /\ live' = live \ {Cur(m).name}
                  /\ Finish(m, [r |-> "ok", id |-> 0])
             ELSE /\ Finish(m, [r |-> "mismatch", id |-> 0]) /\ UNCHANGED <<tabs, live>>
-         /\ UNCHANGED <<prog, seq, rd, got, assigned>>
+         /\ seq' = seq /\ Sync(m)
+         /\ UNCHANGED <<prog, rd, got, assigned, free>>
 
 \* ---- GetTables: GetAll
-L1(m) == /\ Active(m) /\ Cur(m).op = "L" /\ st[m] = 0 /\ Log(m)
-         /\ Finish(m, [r |-> "list", id |-> 0, names |-> DOMAIN tabs])
-         /\ UNCHANGED <<prog, seq, tabs, idx, rd, got, assigned, live>>
+L1(m) == /\ Active(m) /\ Cur(m).op = "L" /\ st[m] = 0 /\ MayBegin(m) /\ Log(m)
+         /\ Finish(m, [r |-> "list", id |-> 0, names |-> DOMAIN VTabs(m)])
+         /\ UNCHANGED <<prog, seq, tabs, idx, rd, got, assigned, live, view, free>>
 
-Next == \E m \in Mgrs : C1(m) \/ C2(m) \/ C3(m) \/ C4(m) \/ D1(m) \/ D2(m) \/ L1(m)
+Next == \E m \in Mgrs : C1(m) \/ C2(m) \/ C3(m) \/ C4(m) \/ D1(m) \/ D2(m) \/ L1(m) \/ Catchup(m)
 Spec == Init /\ [][Next]_vars
 
 (***************************************************************************)
@@ -105,6 +137,20 @@ IdsIncrease == \A i, j \in 1..Len(assigned) : i < j => IdStart < assigned[i] /\ 
 IdsUnique == \A a, b \in DOMAIN tabs : (a # b => tabs[a].id # tabs[b].id) /\ \E i \in 1..Len(assigned) : assigned[i] = tabs[a].id
 \* listing = created and not deleted
 ListExact == live = DOMAIN tabs
+\* "absent concurrent catalogue changes, always then": when calls never overlap (Sequential) a creation succeeds
+\* exactly if the name was free when it began - however far the node's metadata replica lags - and is refused otherwise
+QuietCreate ==
+  Sequential => \A m \in Mgrs : \A i \in 1..Len(ret[m]) :
+     prog[m][i].op = "C" => ret[m][i].r \in {"ok", "exists"}
+QuietCreateStep ==
+  [][Sequential => \A m \in Mgrs : (pc'[m] = pc[m] + 1 /\ Cur(m).op = "C" /\ st[m] # 0) =>
+        (ret'[m][Len(ret'[m])].r = "ok" <=> free[m])]_vars
+\* ... and, when the replica does not lag, also the calls that end at the Exists check (with lag, a name deleted
+\* through another node is still refused as existing: known finding StaleCatalogRead)
+QuietCreateStepAll ==
+  [][Sequential => \A m \in Mgrs : (pc'[m] = pc[m] + 1 /\ Cur(m).op = "C") =>
+        (ret'[m][Len(ret'[m])].r = "ok" <=> IF st[m] = 0 THEN FALSE ELSE free[m])
+        /\ (st[m] = 0 => Exists(Cur(m).name))]_vars
 \* of racing creations of one name at most one succeeds (per incarnation): successful creates of a name
 \* are separated by a successful delete -- follows from: a create succeeds only if the name is absent
 CreateOnlyIfAbsent ==
